@@ -8,7 +8,10 @@ entry and its dependents by Dag::prune_by) is checked only structurally: the
 evaluate closure breaks exactly on invalid signatures or on apply errors, and
 applies each entry once.  SWALLOW: wherever a step's error is ignored and
 evaluation goes on (e.g. `Err(Redacted) => {}` in Identity::op), the step never
-returns one of the ignored errors after having written to the state."""
+returns one of the ignored errors after having written to the state.  WHO: a change's
+signature is verified only by `Entry::valid_signatures`, consulted only by
+`ChangeGraph::evaluate` (a rejection anywhere earlier would skip the change but keep its
+dependents)."""
 import re
 
 from .. import cfg, rules, flow
